@@ -1,10 +1,11 @@
 """C02 - the combined view loses and invents no text."""
 import render_checks as rc
-from props.render_common import run_render
+from props.render_common import run_render, replay_known
 
 
 def run(rep, ctx):
     run_render(rep, ctx, 'c02', [('combined-text', rc.c02_failures)], n_quick=700, n_thorough=12000, small_caps=True, big=True)
+    replay_known(rep, 'C02', rc.c02_failures)
 
 
 def replay(rep, data):
